@@ -76,6 +76,10 @@ def do_mutant(m, with_tests):
         rc, out = run_check(m["prop"], d)
         res["exit"] = rc
         hit_rule = any(l.strip().startswith("rule " + m["rule"]) or (" " + m["rule"] + " ") in l or ("_" + m["rule"] + "_") in l or (m["rule"] + ":") in l for l in out.splitlines() if "VIOLATION" in l or l.strip().startswith("rule "))
+        if m.get("exit2"):
+            res["status"] = "caught" if rc == 2 and ("guard " + m["rule"]) in out else ("MISSED" if rc == 0 else "caught-other-rule")
+            res["first"] = next((l.strip() for l in out.splitlines() if "ANALYSIS-ERROR" in l), "")[:300]
+            return res
         res["status"] = "caught" if rc == 1 and hit_rule else ("caught-other-rule" if rc == 1 else ("analysis-error" if rc == 2 else "MISSED"))
         res["first"] = next((l.strip() for l in out.splitlines() if l.strip().startswith("rule ")), out.strip().splitlines()[-1] if out.strip() else "")[:300]
         if with_tests:
